@@ -175,17 +175,20 @@ package netflow9
 //@ pred jsKey(j ghost.JSON) = (j.Ph == 2 || j.Ph == 3) && jstop(j) == 1 && j.Dp >= 1 && j.Dp <= 2 && jscanon(j)
 
 //@ func (*Message).JSONMarshal
+//@   opt json
 //@   requires b != nil && b.js.Ph == 0 && b.js.Dp == 0 && jscanon(b.js) && jssafe(m.AgentID)
 //@   ensures [valid] err == nil ==> b.js.Ph == 8
 //@   modifies b
 
 //@ func (*Message).encodeAgent
+//@   opt json
 //@   requires b != nil && jsKey(b.js) && jssafe(m.AgentID)
 //@   ensures b.js == jsset(old(b.js), 3)
 //@   slot AgentID m.AgentID
 //@   modifies b
 
 //@ func (*Message).encodeHeader
+//@   opt json
 //@   requires b != nil && jsKey(b.js)
 //@   ensures b.js == jsset(old(b.js), 3)
 //@   slot Version m.Header.Version
@@ -197,6 +200,7 @@ package netflow9
 //@   modifies b
 
 //@ func (*Message).encodeDataSet
+//@   opt json
 //@   requires b != nil && jsKey(b.js)
 //@   ensures err == nil ==> b.js == jsset(old(b.js), 5)
 //@   slot I m.DataSets[i][j].ID
@@ -215,6 +219,7 @@ package netflow9
 
 // the value of one decoded field: a number for the numeric types (exact), quoted text otherwise
 //@ func (*Message).writeValue
+//@   opt json
 //@   requires b != nil && 0 <= i && i < len(m.DataSets) && 0 <= j && j < len(m.DataSets[i])
 //@   requires b.js.Ph == 0 && b.js.Dp >= 1 && b.js.Dp <= 5 && jscanon(b.js)
 //@   ensures [value] err == nil ==> b.js == jsset(old(b.js), 5) || b.js == jsset(old(b.js), 12)   // 12: the bare token null was written
